@@ -270,3 +270,36 @@ for n in range(MAXLOG + 1):
                        z3.And(N.term(f) == N.term0.v + 1, opt_str_eq(v1, N.id, f), N.role(f) == ROLE['Candidate'],
                               z3.BoolVal(len(votes1) == 1 and len(pn) == 1), votes1[0].id == N.id.id if votes1 else z3.BoolVal(False),
                               pn[0][1].v == N.term0.v + 1 if pn else z3.BoolVal(False)), wit, lambda m, w: 'election-state')
+
+# ================================================================ T0: no handler clears or switches the vote inside a term (pre-vote response, timeout-now)
+ck.declare('T0_vote_stable_within_term', f'log 0..1, 2 peers, 0..1 pre-votes counted; handle_pre_vote_response and handle_timeout_now with arbitrary messages',
+           'the term never decreases, and while the term is unchanged the recorded vote is unchanged (or was empty before): the vote of a term is cast once')
+T_BOOL = 'parking_lot::lock_api::RwLock<parking_lot::RawRwLock, bool>'
+for fname, mty, mname in (('RaftNode::handle_pre_vote_response', 'PreVoteResponse', 'pvr'), ('RaftNode::handle_timeout_now', 'TimeoutNow', 'tn')):
+    for n in range(0, 2):
+        for npv in range(0, 2):
+            st = ex.new_state()
+            N = Node(st, n)
+            peers = set_peers(st, N, 2)
+            pv = [Str(z3.BitVec(f'prevoter{i}', 64)) for i in range(npv)]
+            N.node.load(F('RaftNode', 'pre_votes_received'), T_VOTES, st).fields['data'].val = Seq('std::string::String', list(pv))
+            st.assume(z3.ULT(N.term0.v, U64(1 << 62)))
+            msg = st.fresh(mty, mname)
+            frm = st.fresh('std::string::String', 'from')
+            res = run(st, fname, [N.ptr, ref(frm), ref(msg)])
+            ck.note_path_problem(res, f'{fname} log={n} prevotes={npv}')
+            for r in res:
+                wit = lambda m, r=r, N=N, fname=fname: {'handler': fname.split('::')[-1], 'pre': pre_dump(m, N, r.st),
+                                                        'msg': {k: mval(m, v.v if isinstance(v, Int) else v) for k, v in r.st.symbols.items() if k.startswith(mname + '.') and (isinstance(v, Int) or z3.is_bool(v))}}
+                if r.status == 'panic':
+                    ck.require(ex, 'T0_vote_stable_within_term', r.pc, None, z3.BoolVal(False), wit, lambda m, w: 'handler-panic')
+                    continue
+                if r.status != 'return':
+                    continue
+                f = r.st
+                t1 = N.term(f)
+                v1 = N.vote(f)
+                same_vote = z3.And(disc(v1) == N.vote0_disc, z3.Implies(N.vote0_disc == 1, opt_str_eq(v1, N.vote0_some, f)))
+                ck.require(ex, 'T0_vote_stable_within_term', r.pc, None,
+                           z3.And(z3.UGE(t1, N.term0.v), z3.Implies(t1 == N.term0.v, z3.Or(same_vote, N.vote0_disc == 0))), wit, lambda m, w: 'vote-cleared-in-term',
+                           prefer=z3.And(N.commit0.v == 0, N.vote0_disc == 1))
